@@ -190,3 +190,8 @@ def nontrivial(case, result):
         v = int(result.replace("Some(", "").rstrip(")")[2:], 16)
         return v >= 2
     return False
+
+
+def prebuild(root):
+    """translator: regenerate coq/Generated/Loops.v from /repo/src/buint/*.rs (the pow loops are proved equal to the model in Proofs/LoopsTieC08.v)"""
+    return run_translator(root, "rs2v_loops.py", "C08")
